@@ -1,6 +1,7 @@
 (* C15/Props.v — property theorems only: each is closed by [exact] of a lemma proved in
    Proofs.v and followed by Print Assumptions. *)
-From Verif Require Import Lib.Bytes C15.Model C15.Proofs C15.PointModel C15.PointProofs C15.PairModel C15.PairProofs.
+From Verif Require Import Lib.Bytes C15.Model C15.Proofs C15.PointModel C15.PointProofs C15.PairModel C15.PairProofs
+  C15.Proto C15.ProtoProofs C15.ProtoTable C15.Wrap C15.WrapProofs.
 From VerifGen Require Import Consts.
 
 (* No byte stream makes ReadLV panic, and the frame buffer it allocates is always
@@ -212,3 +213,105 @@ Proof. vm_compute. repeat split; reflexivity. Qed.
 Example tlv_roundtrip_nonvacuous :
   read_tlv (write_tlv 21 [1;2;3]%N ++ [9]%N) = TlvOk 21%N [1;2;3]%N [9]%N.
 Proof. vm_compute. reflexivity. Qed.
+
+
+(* ---------- request / response bodies: the generic protobuf model (Proto.v) ---------- *)
+
+(* For EVERY schema that is well formed to nesting depth d (field numbers strictly increasing
+   and below 2^29, packed only on numbers, nested schemas well formed) and EVERY message value
+   well formed for it (one slot per field, numbers in range, optional at most once, required
+   exactly once, nested messages well formed, every length below 2^64):
+   Unmarshal(Marshal(m)) = m, and Marshal reports no missing required field. *)
+Theorem proto_generic_roundtrip :
+  forall (d : nat) (s : schema) (m : msgv),
+  wf_schema d s = true -> wf_msg d s m = true ->
+  decode d s (encode d s m) = ROk m /\ complete d s m = true.
+Proof. intros d s m Hs Hm. split; [exact (decode_encode d s m Hs Hm)|exact (complete_of_wf d s m Hm)]. Qed.
+Print Assumptions proto_generic_roundtrip.
+
+(* For EVERY schema (well formed or not), EVERY initial message and EVERY byte string the
+   unmarshaler returns a message or an error: no slice is ever taken beyond the buffer. *)
+Theorem proto_decode_never_crashes :
+  forall (d : nat) (s : schema) (b : bytes), decode d s b <> RCrash.
+Proof. exact decode_no_crash. Qed.
+Print Assumptions proto_decode_never_crashes.
+
+(* Every schema regenerated from data.pb.go in this run is well formed, so each message of
+   the inter-node protocol (looked up by name, or as the request / response body of a
+   message-type code of service.go) round-trips and its decoder cannot crash. *)
+Theorem rpc_message_roundtrip :
+  forall name s m, schema_by_name name = Some s -> wf_msg rpc_depth s m = true ->
+  decode rpc_depth s (encode rpc_depth s m) = ROk m /\ complete rpc_depth s m = true.
+Proof. exact rpc_message_roundtrip_lemma. Qed.
+Print Assumptions rpc_message_roundtrip.
+
+Theorem rpc_body_roundtrip :
+  forall code s m, request_schema code = Some s \/ response_schema code = Some s ->
+  wf_msg rpc_depth s m = true -> decode rpc_depth s (encode rpc_depth s m) = ROk m.
+Proof. exact rpc_body_roundtrip_lemma. Qed.
+Print Assumptions rpc_body_roundtrip.
+
+Theorem rpc_tables_well_formed :
+  all_wf = true /\ names_distinct (map fst c15_rpc_messages) = true /\ c15_pb_matches_proto = true.
+Proof. split; [exact rpc_schemas_wf|]. destruct rpc_table_sane as (A & B & _). split; assumption. Qed.
+Print Assumptions rpc_tables_well_formed.
+
+(* rpc.go wrappers.  The codecs of the opaque payloads are hypotheses (section variables). *)
+Theorem write_shard_request_lossless :
+  forall (P : Type) (marshal_point : P -> bytes) (parse_point : bytes -> option P),
+  (forall p, parse_point (marshal_point p) = Some p) ->
+  forall id db rp (ps : list P),
+  let w := mkWs (Some id) db rp (map marshal_point ps) in
+  (id < two64)%N -> forallb short_b (map marshal_point ps) = true -> oshort db = true -> oshort rp = true ->
+  exists m', decode rpc_depth ws_schema (encode rpc_depth ws_schema (ws_to_msg w)) = ROk m' /\
+             complete rpc_depth ws_schema (ws_to_msg w) = true /\
+             ws_getters m' = (id, dflt db, dflt rp, map marshal_point ps) /\
+             filter_map parse_point (snd (ws_getters m')) = ps.
+Proof. exact write_shard_request_lossless_lemma. Qed.
+Print Assumptions write_shard_request_lossless.
+
+Theorem execute_statement_request_lossless :
+  forall stmt db, short_b stmt = true -> short_b db = true ->
+  let m := es_to_msg (Some stmt) (Some db) in
+  decode rpc_depth es_schema (encode rpc_depth es_schema m) = ROk m /\ es_getters m = (stmt, db).
+Proof. exact execute_statement_request_lossless_lemma. Qed.
+Print Assumptions execute_statement_request_lossless.
+
+Theorem create_iterator_request_lossless :
+  forall (M O S : Type) (enc_m : M -> bytes) (dec_m : bytes -> option M)
+         (enc_o : O -> bytes) (dec_o : bytes -> option O) (enc_s : S -> bytes) (dec_s : bytes -> option S),
+  (forall x, dec_m (enc_m x) = Some x) -> (forall x, dec_o (enc_o x) = Some x) -> (forall x, dec_s (enc_s x) = Some x) ->
+  forall ids mm oo ss,
+  forallb (fun n => (n <? two64)%N) ids = true ->
+  short_b (enc_m mm) = true -> short_b (enc_o oo) = true -> short_b (enc_s ss) = true ->
+  let m := ci_to_msg ids (Some (enc_m mm)) (Some (enc_o oo)) (Some (enc_s ss)) in
+  decode rpc_depth ci_schema (encode rpc_depth ci_schema m) = ROk m /\
+  (let '(i, a, b, c) := ci_getters m in (i, dec_m a, dec_o b, dec_s c)) = (ids, Some mm, Some oo, Some ss).
+Proof. exact create_iterator_request_lossless_lemma. Qed.
+Print Assumptions create_iterator_request_lossless.
+
+Theorem create_iterator_response_lossless :
+  forall err typ64 series points,
+  oshort err = true -> sext32 (typ64 mod two32) = typ64 -> (series < two64)%N -> (points < two64)%N ->
+  let m := cir_to_msg err typ64 series points in
+  decode rpc_depth cir_schema (encode rpc_depth cir_schema m) = ROk m /\
+  cir_getters m = (err, typ64, series, points).
+Proof. exact create_iterator_response_lossless_lemma. Qed.
+Print Assumptions create_iterator_response_lossless.
+
+(* non-vacuity: a nested, repeated, partly unset message; malformed bytes are errors *)
+Example proto_roundtrip_nonvacuous :
+  let m : msgv := ([[VBytes [101]]; [VNum 4294967295]; [VMsg [[VNum 18446744073709551615]; []] []]], []) in
+  wf_schema rpc_depth cir_schema = true /\ wf_msg rpc_depth cir_schema m = true /\
+  decode rpc_depth cir_schema (encode rpc_depth cir_schema m) = ROk m.
+Proof. vm_compute. repeat split; reflexivity. Qed.
+
+Example proto_malformed_is_error :
+  decode rpc_depth ws_schema [] = RErr /\                      (* required ShardID missing *)
+  decode rpc_depth ws_schema [8; 1; 18; 5; 65] = RErr /\       (* length beyond the buffer *)
+  decode rpc_depth ws_schema [8; 1; 0; 0] = RErr /\            (* illegal tag 0 *)
+  decode rpc_depth ws_schema [8; 1; 18; 255; 255; 255; 255; 255; 255; 255; 255; 255; 1] = RErr /\  (* length 2^64-1 *)
+  decode rpc_depth ws_schema [8; 1; 21; 1; 2; 3; 4] = ROk ([[VNum 1]; []; []; []], [21; 1; 2; 3; 4]) /\ (* wrong wire type: kept as unknown *)
+  decode rpc_depth cir_schema [16; 1; 26; 2; 8; 5; 26; 2; 16; 6] =
+    ROk ([[]; [VNum 1]; [VMsg [[VNum 5]; [VNum 6]] []]], []).   (* a repeated nested message is merged *)
+Proof. vm_compute. repeat split; reflexivity. Qed.
